@@ -13,7 +13,7 @@ Fixpoint render_node (cfg : config) (b : nat) (n : node) (st : rstate) {struct n
   | NAct e a => gen_def_and_step cfg (fst st) (snd st) (mk_pos a b e)
   | NWrap e a inner =>
       do inner' <- render_nodes inner (fst st, RVar n_v);
-      match replace_inner (a_comb a) [RClosure n_v (snd inner')] with
+      match replace_inner (a_comb a) [wrapper_closure cfg (snd inner')] with
       | None => InternalBug 4
       | Some args => gen_def_and_step cfg (fst inner') (snd st) (set_args (mk_pos a b e) args)
       end
@@ -31,7 +31,7 @@ Proof. reflexivity. Qed.
 Lemma render_node_NWrap cfg b e a inner st :
   render_node cfg b (NWrap e a inner) st =
   (do inner' <- render_nodes cfg b inner (fst st, RVar n_v);
-   match replace_inner (a_comb a) [RClosure n_v (snd inner')] with
+   match replace_inner (a_comb a) [wrapper_closure cfg (snd inner')] with
    | None => InternalBug 4
    | Some args => gen_def_and_step cfg (fst inner') (snd st) (set_args (mk_pos a b e) args)
    end).
@@ -93,13 +93,13 @@ Proof.
       destruct (render_nodes cfg b t0 (ds, RVar n_v)) as [[ds' body]| |]; cbn [rbind fst snd]; try reflexivity.
       cbn [List.length close_all a_stk wrap_last a_defs].
       change (p_comb (mk_pos x b e)) with (a_comb x).
-      destruct (replace_inner (a_comb x) [RClosure n_v body]) as [args|]; [|reflexivity].
+      destruct (replace_inner (a_comb x) [wrapper_closure cfg body]) as [args|]; [|reflexivity].
       destruct (gen_def_and_step cfg ds' s (set_args (mk_pos x b e) args)) as [[ds'' s'']| |]; cbn [rbind fst snd]; try reflexivity.
     + cbn [close_with a_stk a_defs render_nodes]. rewrite render_node_NWrap. cbn [fst snd].
       destruct (render_nodes cfg b t0 (ds, RVar n_v)) as [[ds' body]| |]; cbn [rbind fst snd]; try reflexivity.
       cbn [wrap_last a_stk a_defs].
       change (p_comb (mk_pos x b e)) with (a_comb x).
-      destruct (replace_inner (a_comb x) [RClosure n_v body]) as [args|]; [|reflexivity].
+      destruct (replace_inner (a_comb x) [wrapper_closure cfg body]) as [args|]; [|reflexivity].
       destruct (gen_def_and_step cfg ds' s (set_args (mk_pos x b e) args)) as [[ds'' s'']| |]; cbn [rbind fst snd]; try reflexivity.
   - (* Unwrap *)
     cbn [close_with a_stk a_defs render_nodes rbind fst snd].
